@@ -67,6 +67,16 @@ func copyDefault(src reflect.Value, t reflect.Type) reflect.Value {
 		cp := reflect.New(t.Elem())
 		cp.Elem().Set(copyDefault(src.Elem(), t.Elem()))
 		return cp
+	case reflect.Struct:
+		// the struct itself is copied by value, what its fields point to is copied field by field
+		cp := reflect.New(t).Elem()
+		cp.Set(src)
+		for i := 0; i < cp.NumField(); i++ {
+			if f := cp.Field(i); f.CanSet() {
+				f.Set(copyDefault(src.Field(i), f.Type()))
+			}
+		}
+		return cp
 	default:
 		return src
 	}
